@@ -24,6 +24,8 @@ func init() {
 			"O5 (R-FLOW) the HAMT->Basic size gate is exact only if the HAMT directory knows how far it is from the threshold: when the sizeBelowThreshold enumeration is guarded by a comparison on HAMTDirectory.sizeChange, (a) every Basic->HAMT conversion initialises sizeChange from BasicDirectory.estimatedSize, and (b) sizeChange is accumulated with the same (mode-aware) size function as the operation delta it is added to; " +
 			"O7 (R-FLOW) size terms of the sharding decisions: a term computed from the entry that already exists under the name (link from GetNodeLink / Shard.Find) takes every field from that link only and enters the compared size negatively; a term computed from the entry being added (ipld.MakeLink(node) / node.Cid()) takes every field from it only and enters positively; the MaxLinks test gets the looked-up entry; " +
 			"O8 (R-PAIR) HAMTDirectory.totalLinks is incremented exactly where Shard.Swap returned no previous link and decremented exactly where Shard.Take returned one; " +
+			"O9 (R-SIB) recompute vs incremental path of BasicDirectory: the fields the incremental path maintains (totalLinks by +/-1, estimatedSize by +/- one link size) are re-established by the recompute function on every path that is feasible for each estimation mode (node present): totalLinks = len(all links of the node) or +1 on every iteration of a loop over all links (after a reset to 0), in Block, Links and Disabled mode alike; estimatedSize accumulates the mode's link-size function over every link in Block and Links mode; no reset follows; " +
+			"O10 (R-FLOW/R-PAIR/R-SIB) the effective-threshold method of each directory type returns the field its exported SetHAMTShardingSize writes on some path; every hamt.Shard.Set/SetLink on a HAMTDirectory's shard is followed on its nil-error path by totalLinks+1 of that directory; a HAMTDirectory size that sums exact block link sizes and is compared with the threshold also contains dataFieldSerializedSize (as the basic side's estimate does); " +
 			"O6 (R-SIB, mfs) every function of package mfs that re-applies one of the settings that are not persisted in the DAG node (SetMaxLinks, SetMaxHAMTFanout, SetHAMTShardingSize, SetSizeEstimationMode) on a unixfs directory re-applies all four. " +
 			"NOT decided: order-independence of the HAMT layout and of the CID (runtime values), canonical shard collapse (see C15 O4), the arithmetic of the estimators (C17).",
 		Assume: []string{
@@ -275,6 +277,12 @@ func runC16(c *an.Ctx) {
 
 	// ---- O8: HAMT link counter
 	x.hamtCount(fns)
+
+	// ---- O9: the recompute path re-establishes what the incremental path maintains
+	x.recompute(fns)
+
+	// ---- O10: per-directory threshold, HAMT bulk insertion count, data-field term
+	x.extra(fns)
 }
 
 // site checks one store `d.Directory = <result of a conversion>`.
@@ -537,6 +545,39 @@ func (x *c16Ctx) comparators(fns []*ssa.Function) {
 				c.Check(op == token.GTR || op == token.LEQ, "O2", "R-CMP", an.FuncName(f), "links-vs-maxLinks", b.Pos(),
 					"link count compared with maxLinks as 'links > maxLinks' / 'links <= maxLinks'",
 					fmt.Sprintf("link count is compared with maxLinks as 'links %s maxLinks': the other sites treat exactly maxLinks links as allowed, so the basic/HAMT decision at the boundary depends on which path was taken", op))
+				// the count that is compared before an operation is the count after it
+				if fl, _ := an.LoadedField(l); fl != nil && (fl == c16IOR.bTot || fl == c16IOR.hTot) {
+					c.Check(false, "O2", "R-CMP", an.FuncName(f), "links-vs-maxLinks:post-operation-count", b.Pos(), "",
+						"the stored link count itself (not the count after the pending addition/removal) is compared with maxLinks: the check is off by the entry being added, so one site allows maxLinks+1 links while the others shard at maxLinks+1 — the layout at the boundary depends on the path taken")
+				} else {
+					c.OK("O2", "R-CMP", an.FuncName(f), "links-vs-maxLinks:post-operation-count", b.Pos(), "count compared with maxLinks is a post-operation count")
+				}
+				// a pre-check that knows both the node to add and the entry found under
+				// the name counts +1 for the addition and -1 for the replaced entry
+				hasNode, hasFind := false, len(an.Calls(f, an.M("ipld/unixfs/hamt", "Shard", "Find"))) > 0
+				for _, par := range f.Params {
+					if an.TypeIs(par.Type(), "github.com/ipfs/go-ipld-format", "Node") {
+						hasNode = true
+					}
+				}
+				if hasNode && hasFind {
+					inc, dec := false, false
+					for _, bo := range c16BinOpsOf(l) {
+						k, isK := an.ConstOf(bo.Y)
+						if !isK || k.String() != "1" {
+							continue
+						}
+						if bo.Op == token.ADD {
+							inc = true
+						}
+						if bo.Op == token.SUB {
+							dec = true
+						}
+					}
+					c.Check(inc && dec, "O2", "R-CMP", an.FuncName(f), "links-vs-maxLinks:counts-addition-and-replaced-entry", b.Pos(),
+						"post-operation count adds the new entry and subtracts the replaced one",
+						"the link count compared with maxLinks in the HAMT->basic pre-check does not account for both the entry being added (+1) and the entry found under the name (-1): a replacement or a removal is counted wrongly, so the downgrade happens at a different count than a fresh build has")
+				}
 			}
 		})
 	}
@@ -949,6 +990,19 @@ func (x *c16Ctx) gate(fns []*ssa.Function) {
 	for _, g := range gates {
 		// role name, not the (unexported) function name: these keys are listed as known findings
 		name := "ipld/unixfs/io.HAMTDirectory.switch-to-basic-gate"
+		// (0) the gate looks at the tracker after the pending operation: the size
+		// change handed to the enumeration is also part of the gated value
+		argOps := map[string]bool{}
+		for _, a := range an.Args(g.call) {
+			if c15IsIntT(a.Type()) {
+				x.sizeFnsOf(fns, a, argOps, 0)
+			}
+		}
+		if len(argOps) > 0 {
+			c.Check(len(g.ops) > 0, "O5", "R-FLOW", name, "size-gate<=includes-operation-delta", g.call.Pos(),
+				"the gated value contains the size change of the pending operation",
+				"the HAMT->basic gate tests the size tracker without the size change of the pending operation, although that change is handed to the enumeration: a removal/replacement that brings the directory below the threshold is not even measured while the tracker is still positive, so the directory stays sharded where a fresh build is basic")
+		}
 		// (a) conversions initialise the tracker from the basic directory's estimate
 		nConv, okInit := 0, true
 		for _, f := range fns {
@@ -1592,4 +1646,406 @@ func c16ClosureUse(g *ssa.Function) (sites []*ssa.MakeClosure, calls []ssa.CallI
 		confined = false
 	}
 	return
+}
+
+// ---- O9: sibling agreement between the incremental updater and the recompute function.
+
+func (x *c16Ctx) recompute(fns []*ssa.Function) {
+	c := x.c
+	p := c.P
+	comp := c17Comp(p)
+	fTot, fEst, fNode := c16IOR.bTot, c16IOR.bEst, c16IOR.bNode
+	kBlock, kLinks := x.modeConst("SizeEstimationBlock"), x.modeConst("SizeEstimationLinks")
+	if !c.Need(comp != nil && fTot != nil && fEst != nil && fNode != nil && kBlock != nil && kLinks != nil && len(comp.Blocks) > 0, "BasicDirectory recompute function, totalLinks, estimatedSize, node") {
+		return
+	}
+	name := an.FuncName(comp)
+	// the incremental path maintains the fields at all (otherwise nothing to agree with)
+	maintained := map[*types.Var]bool{}
+	for _, f := range fns {
+		if f == comp {
+			continue
+		}
+		for _, fl := range []*types.Var{fTot, fEst} {
+			for _, st := range an.FieldStores(f, fl) {
+				if b, ok := st.Val.(*ssa.BinOp); ok && (b.Op == token.ADD || b.Op == token.SUB) {
+					if l, _ := an.LoadedField(b.X); l == fl {
+						maintained[fl] = true
+					}
+				}
+			}
+		}
+	}
+	// all links of this directory's node: node.Links() / the node's link slice, unsliced
+	isAllLinks := func(v ssa.Value) bool {
+		for _, l := range an.Deps(v, &an.DepOpts{Stop: func(w ssa.Value) bool { _, is := w.(*ssa.Slice); return is }}) {
+			if _, is := l.(*ssa.Slice); is {
+				return false // a sub-slice: not all links
+			}
+		}
+		rs := an.Roots(v, nil)
+		if len(rs) == 0 {
+			return false
+		}
+		for _, r := range rs {
+			if call, ok := r.(*ssa.Call); ok && an.Callee(call).Recv == "ProtoNode" && an.Callee(call).Name == "Links" {
+				if fl, _ := an.LoadedField(an.Recv(call)); fl == fNode {
+					continue
+				}
+			}
+			if fl, base := an.LoadedField(r); fl != nil && fl == c16IOR.pnLinks && base != nil {
+				if fl2, _ := an.LoadedField(base); fl2 == fNode {
+					continue
+				}
+			}
+			return false
+		}
+		return true
+	}
+	kinds := map[string]string{"Block": "block", "Links": "links"}
+	// estab: on every path through f that is feasible in mode m (node present),
+	// the field is established from all links — by a statement of f or by a
+	// helper method called on the same directory that does so itself.
+	var estab func(f *ssa.Function, fl *types.Var, m string, depth int) (bool, string)
+	estab = func(f *ssa.Function, fl *types.Var, m string, depth int) (bool, string) {
+		if len(f.Blocks) == 0 || len(f.Params) == 0 {
+			return false, "no body"
+		}
+		var nodeLoads []ssa.Value
+		an.Instrs(f, func(in ssa.Instruction) {
+			if v, ok := in.(ssa.Value); ok {
+				if l, _ := an.LoadedField(v); l == fNode {
+					nodeLoads = append(nodeLoads, v)
+				}
+			}
+		})
+		cut := an.NilEdges(f, nodeLoads, true)
+		switch m {
+		case "Block":
+			cut = cut.Union(x.modeEdges(f, kBlock, false)).Union(x.modeEdges(f, kLinks, true))
+		case "Links":
+			cut = cut.Union(x.modeEdges(f, kLinks, false)).Union(x.modeEdges(f, kBlock, true))
+		default:
+			cut = cut.Union(x.modeEdges(f, kBlock, true)).Union(x.modeEdges(f, kLinks, true))
+		}
+		loops := an.RangeLoops(f)
+		loopOf := func(in ssa.Instruction) *an.RangeLoop {
+			for _, l := range loops {
+				if l.Contains(in) && l.Slice != nil && isAllLinks(l.Slice) {
+					return l
+				}
+			}
+			return nil
+		}
+		events := map[ssa.Instruction]bool{}
+		var resets []*ssa.Store
+		for _, st := range an.FieldStores(f, fl) {
+			if _, base := an.FieldOf(st.Addr); base == nil || !an.SameObj(base, f.Params[0]) {
+				continue
+			}
+			if k, ok := an.ConstOf(st.Val); ok && k.String() == "0" {
+				resets = append(resets, st)
+				continue
+			}
+			if fl == fTot {
+				if lc, ok := an.IsBuiltinCall(st.Val, "len"); ok && isAllLinks(lc.Call.Args[0]) {
+					events[st] = true
+					continue
+				}
+			}
+			b, ok := st.Val.(*ssa.BinOp)
+			if !ok || b.Op != token.ADD {
+				continue
+			}
+			if l, _ := an.LoadedField(b.X); l != fl {
+				continue
+			}
+			lp := loopOf(st)
+			if lp == nil {
+				continue
+			}
+			good := false
+			if fl == fTot {
+				k, isK := an.ConstOf(b.Y)
+				good = isK && k.String() == "1"
+			} else {
+				isTerm, same, _, base := c17SizeTerm(b.Y)
+				good = isTerm && same && base != nil && lp.IsElem(base)
+				if call, isCall := b.Y.(*ssa.Call); good && isCall {
+					if kind := c16SizeKind(call); kind != "" {
+						// the mode's own size function, given the element's own name
+						nf, nb := an.LoadedField(call.Call.Args[0])
+						if kind != kinds[m] || nf == nil || nf.Name() != "Name" || !lp.IsElem(nb) {
+							good = false
+						}
+					}
+				}
+			}
+			cc := an.EdgeSet{an.Edge{From: lp.Header, Succ: 1}: true}.Union(cut)
+			if good && !an.Reaches(f, lp.If, lp.Header.Instrs[0], cc, map[ssa.Instruction]bool{st: true}) {
+				// zero links: the loop leaves the value of the preceding reset / data-field store
+				events[lp.If] = true
+			}
+		}
+		if depth < 2 {
+			for _, call := range an.AllCalls(f) {
+				g := an.Callee(call).Static
+				if g == nil || g == f || g.Blocks == nil || g.Signature.Recv() == nil || !an.TypeIs(g.Signature.Recv().Type(), c16IO, "BasicDirectory") {
+					continue
+				}
+				if r := an.Recv(call); r == nil || !an.SameObj(r, f.Params[0]) {
+					continue
+				}
+				if _, isCall := call.(*ssa.Call); !isCall {
+					continue
+				}
+				if ok, _ := estab(g, fl, m, depth+1); ok {
+					events[call] = true
+				}
+			}
+		}
+		if len(events) == 0 {
+			return false, "no statement of the recompute path establishes it from all links of the node"
+		}
+		for _, r := range an.Returns(f) {
+			if f.Recover != nil && r.Block() == f.Recover {
+				continue
+			}
+			if an.Reaches(f, nil, r, cut, events) {
+				return false, "a path that is taken in this mode returns without it"
+			}
+		}
+		for _, rs := range resets {
+			for e := range events {
+				if an.Reaches(f, e, rs, cut, nil) {
+					return false, "it is reset to 0 after it was established"
+				}
+			}
+		}
+		return true, ""
+	}
+	for _, fld := range []struct {
+		fl    *types.Var
+		label string
+	}{{fTot, "totalLinks"}, {fEst, "estimatedSize"}} {
+		if !maintained[fld.fl] {
+			continue
+		}
+		for _, m := range []struct{ name string }{{"Block"}, {"Links"}, {"Disabled"}} {
+			if fld.fl == fEst && m.name == "Disabled" {
+				continue
+			}
+			ok, why := estab(comp, fld.fl, m.name, 0)
+			c.Check(ok, "O9", "R-SIB", name, "recompute:"+fld.label+"-reestablished-in-mode-"+m.name, comp.Pos(),
+				fld.label+" is re-established from all links of the node in mode "+m.name,
+				"the recompute function of BasicDirectory does not re-establish "+fld.label+" from all links of the node when the size estimation mode is "+m.name+" ("+why+"), although the incremental path (AddChild/RemoveChild) maintains it: after a reload / mode change the MaxLinks and size rules decide on a stale value, so the basic/HAMT layout differs from a fresh build")
+		}
+	}
+}
+
+// c16BinOpsOf: the arithmetic operators a value is computed with (through phis
+// and conversions).
+func c16BinOpsOf(v ssa.Value) []*ssa.BinOp {
+	var out []*ssa.BinOp
+	seen := map[ssa.Value]bool{}
+	var walk func(v ssa.Value)
+	walk = func(v ssa.Value) {
+		if v == nil || seen[v] {
+			return
+		}
+		seen[v] = true
+		switch v := v.(type) {
+		case *ssa.Phi:
+			for _, e := range v.Edges {
+				walk(e)
+			}
+		case *ssa.BinOp:
+			out = append(out, v)
+			walk(v.X)
+			walk(v.Y)
+		case *ssa.Convert:
+			walk(v.X)
+		case *ssa.ChangeType:
+			walk(v.X)
+		case *ssa.UnOp:
+			if v.Op != token.MUL {
+				return
+			}
+			// a local variable, or a field of a local struct variable: the values stored there
+			switch a := v.X.(type) {
+			case *ssa.Alloc:
+				if a.Referrers() != nil {
+					for _, r := range *a.Referrers() {
+						if st, ok := r.(*ssa.Store); ok && st.Addr == ssa.Value(a) {
+							walk(st.Val)
+						}
+					}
+				}
+			case *ssa.FieldAddr:
+				base, ok := a.X.(*ssa.Alloc)
+				if !ok || base.Referrers() == nil {
+					return
+				}
+				for _, r := range *base.Referrers() {
+					fa, ok := r.(*ssa.FieldAddr)
+					if !ok || fa.Field != a.Field || fa.Referrers() == nil {
+						continue
+					}
+					for _, rr := range *fa.Referrers() {
+						if st, ok := rr.(*ssa.Store); ok && st.Addr == ssa.Value(fa) {
+							walk(st.Val)
+						}
+					}
+				}
+			}
+		}
+	}
+	walk(v)
+	return out
+}
+
+// ---- O10
+func (x *c16Ctx) extra(fns []*ssa.Function) {
+	c := x.c
+	p := c.P
+	// (a) the effective threshold honours the per-directory setting
+	nThr := 0
+	for _, typ := range []string{"BasicDirectory", "HAMTDirectory"} {
+		set := p.Func(c16IO, typ, "SetHAMTShardingSize")
+		if set == nil {
+			continue
+		}
+		var fld *types.Var
+		an.Instrs(set, func(in ssa.Instruction) {
+			if st, ok := in.(*ssa.Store); ok {
+				if fl, base := an.FieldOf(st.Addr); fl != nil && base != nil && an.SameObj(base, set.Params[0]) {
+					fld = fl
+				}
+			}
+		})
+		if fld == nil {
+			continue
+		}
+		for _, g := range p.Methods(c16IO, typ) {
+			if g.Signature.Params().Len() != 0 || g.Signature.Results().Len() != 1 {
+				continue
+			}
+			readsGlobal := false
+			an.Instrs(g, func(in ssa.Instruction) {
+				if u, ok := in.(*ssa.UnOp); ok && u.Op == token.MUL {
+					if gl, ok := u.X.(*ssa.Global); ok && gl.Name() == "HAMTShardingSize" {
+						readsGlobal = true
+					}
+				}
+			})
+			if !readsGlobal {
+				continue
+			}
+			nThr++
+			ok := false
+			for _, rs := range an.ResultSites(g, 0) {
+				for _, r := range an.Roots(rs.Val, nil) {
+					if fl, _ := an.LoadedField(r); fl == fld {
+						ok = true
+					}
+				}
+			}
+			c.Check(ok, "O10", "R-FLOW", an.FuncName(g), "effective-threshold<=per-directory-setting", g.Pos(),
+				"effective threshold returns the per-directory HAMTShardingSize when set",
+				typ+"'s effective sharding threshold never returns the value stored by SetHAMTShardingSize: a per-directory threshold is lost (after a basic/HAMT conversion the directory decides with the global threshold), so the layout depends on the conversions it went through")
+		}
+	}
+	c.Min("O10 effective-threshold methods", nThr, 1)
+
+	// (b) bulk insertion into a HAMTDirectory's shard keeps totalLinks
+	fTot, fShard := c16IOR.hTot, c16IOR.hShard
+	if fTot != nil && fShard != nil {
+		for _, f := range fns {
+			for _, call := range an.Calls(f, an.M("ipld/unixfs/hamt", "Shard", "Set"), an.M("ipld/unixfs/hamt", "Shard", "SetLink")) {
+				fl, base := an.LoadedField(an.Recv(call))
+				if fl != fShard || base == nil {
+					continue
+				}
+				blocked := map[ssa.Instruction]bool{}
+				for _, st := range an.FieldStores(f, fTot) {
+					_, b2 := an.FieldOf(st.Addr)
+					bo, isB := st.Val.(*ssa.BinOp)
+					if b2 == nil || !an.SameObj(b2, base) || !isB || bo.Op != token.ADD {
+						continue
+					}
+					if k, isK := an.ConstOf(bo.Y); isK && k.String() == "1" {
+						blocked[st] = true
+					}
+				}
+				cut := an.NilEdges(f, an.ErrResult(call), false)
+				ok := len(blocked) > 0
+				for _, r := range an.Returns(f) {
+					if f.Recover != nil && r.Block() == f.Recover {
+						continue
+					}
+					if ok && an.Reaches(f, call, r, cut, blocked) {
+						ok = false
+					}
+				}
+				c.Check(ok, "O10", "R-PAIR", an.FuncName(f), an.Callee(call).Name+"=>totalLinks+1", call.Pos(),
+					"entry inserted into the HAMT directory's shard is counted",
+					"an entry is inserted into a HAMTDirectory's shard ("+an.Callee(call).Name+") without totalLinks being incremented on the success path: the MaxLinks rule of the HAMT->basic decision works on a wrong count, so the layout differs from a fresh build")
+			}
+		}
+	}
+
+	// (c) a HAMT-side size made of exact block link sizes contains the data field
+	for _, f := range fns {
+		if f.Signature.Recv() == nil || !an.TypeIs(f.Signature.Recv().Type(), c16IO, "HAMTDirectory") {
+			continue
+		}
+		an.Instrs(f, func(in ssa.Instruction) {
+			b, ok := in.(*ssa.BinOp)
+			if !ok || (b.Op != token.GTR && b.Op != token.LSS && b.Op != token.GEQ && b.Op != token.LEQ) {
+				return
+			}
+			thrOf := func(v ssa.Value) bool {
+				for _, l := range an.Deps(v, &an.DepOpts{Stop: func(w ssa.Value) bool { _, is := w.(*ssa.Call); return is }}) {
+					if call, is := l.(*ssa.Call); is && c16IsThresholdCall(call) {
+						return true
+					}
+				}
+				return false
+			}
+			size := b.X
+			if thrOf(b.X) == thrOf(b.Y) {
+				return
+			}
+			if thrOf(b.X) {
+				size = b.Y
+			}
+			block, data := false, false
+			for _, l := range an.Deps(size, &an.DepOpts{Stop: func(w ssa.Value) bool { _, is := w.(*ssa.Call); return is }}) {
+				call, is := l.(*ssa.Call)
+				if !is {
+					continue
+				}
+				switch c16SizeKind(call) {
+				case "block":
+					block = true
+				case "block-data":
+					data = true
+				default:
+					if g := an.Callee(call).Static; c16IsSizeHelper(g) {
+						for _, rs := range an.ResultSites(g, 0) {
+							if inner, isC := rs.Val.(*ssa.Call); isC && c16SizeKind(inner) == "block" {
+								block = true
+							}
+						}
+					}
+				}
+			}
+			if !block {
+				return
+			}
+			c.Check(data, "O10", "R-SIB", an.FuncName(f), "block-size-sum-includes-data-field", b.Pos(),
+				"HAMT-side block size includes the data field",
+				"a HAMTDirectory size that sums exact link sizes (linkSerializedSize) is compared with the threshold without dataFieldSerializedSize: the basic side's estimate contains the data field, so the two directions decide differently near the threshold (CID depends on history)")
+		})
+	}
 }
